@@ -362,6 +362,10 @@ def _outcomes(prog, fn, pv, n, variant, gates):
         name = hir.callee_name(n) or n.get("method")
         if name in REPLACE_FNS:
             return {(name, frozenset(gates))}
+        h = prog.resolve_local(n)
+        if h is not None and h is not fn and h.body is not None and len(gates) < 12 and any((hir.callee_name(x) or x.get("method")) in REPLACE_FNS for hh in prog.flat(h, 2) for x in hir.walk(hh.body) if hir.is_call(x)):
+            # a crate helper on the way to the hook builders: evaluated in place
+            return _outcomes(prog, h, pv, h.body, variant, gates)
         res = set()
         for a in hir.call_args(n):
             res |= {o for o in _outcomes(prog, fn, pv, a, variant, gates) if o[0] is not None}
@@ -440,16 +444,32 @@ def rule_receiver_table(check):
             check.bad(R, key, hir.loc(f.rec), "receiver kind Expr::%s leads to %s, documented %s" % (variant, show(outs) or "no hook", show(want) or "no hook"))
     check.floor(R, "receiver kinds leading to a hook", n_hook, 6)
     # identifier property required
-    for c in [x for x in hir.walk(f.body) if hir.is_call(x) and hir.callee_name(x) in REPLACE_FNS]:
+    def upto_replace(f0):
+        """to_dd_call_expr and the crate helpers it is split into, not entering the hook builders"""
+        out_, seen_, work_ = [], set(), [f0]
+        while work_:
+            g_ = work_.pop()
+            if g_.def_path in seen_ or g_.body is None:
+                continue
+            seen_.add(g_.def_path)
+            out_.append(g_)
+            for x in hir.walk(g_.body):
+                if hir.is_call(x) and (hir.callee_name(x) or x.get("method")) not in REPLACE_FNS and hir.callee_name(x) != "replace_call_expr_if_csi_method_without_callee":
+                    h_ = prog.resolve_local(x)
+                    if h_ is not None and not h_.rec.get("gen") and len(out_) < 6:
+                        work_.append(h_)
+        return out_
+
+    for f_, c in [(g_, x) for g_ in upto_replace(f) for x in hir.walk(g_.body) if hir.is_call(x) and hir.callee_name(x) in REPLACE_FNS]:
         ok = False
-        for cd in f.conds_at(c):
+        for cd in f_.conds_at(c):
             if cd["t"] == "pat" and cd["v"]:
                 for q in hir.walk_pat(cd["pat"]):
                     if str(hir.pat_variant(q)).endswith("MemberProp::Ident"):
                         ok = True
         check.expect(ok, R, R + "/ident-property/" + hir.callee_name(c), hir.loc(c), "only identifier (non-computed) properties", "a hook is built for a property that is not matched as MemberProp::Ident (computed names are a documented exclusion)")
     # bare calls
-    bare = [c for c in hir.walk(f.body) if hir.is_call(c) and hir.callee_name(c) == "replace_call_expr_if_csi_method_without_callee"]
+    bare = [c for g_ in upto_replace(f) for c in hir.walk(g_.body) if hir.is_call(c) and hir.callee_name(c) == "replace_call_expr_if_csi_method_without_callee"]
     check.floor(R, "bare-call dispatch", len(bare), 1)
     # literal-caller set
     g = prog.fn("CsiMethods::new")
